@@ -83,6 +83,9 @@ def max (l : List FV) : FV := if l.any isNaN then .nan else l.foldl max2 (.inf t
 /-- §15.8.2.12 min -/
 def min (l : List FV) : FV := if l.any isNaN then .nan else l.foldl min2 (.inf false)
 
+/-- §15.8.2.11/12: "calls ToNumber on each of the arguments" — every argument is converted -/
+def maxMinConverted (l : List FV) : Nat := l.length
+
 /-- "x is greater than 1", "x is less than −1" etc. on Numbers (false for NaN) -/
 def gtOne (x : FV) : Bool := lt one x
 def ltNegOne (x : FV) : Bool := lt x negOne
